@@ -66,6 +66,25 @@ CHECKS = {
         'abstraction assumes exact fraction-free divisions (decided '
         'separately under integer semantics); small_roots and float CDFs '
         'outside'),
+    'C20': (
+        True, '5/C20',
+        'symbolic execution of every RandomBits of the registry on z3 Int '
+        'proxies with symbolic seed / entropy bytes (pysym, byte buffers as '
+        'lists of byte terms); z3 decides 0 <= result < 2^n, absence of '
+        'entropy use under a seed, and equality with reference models',
+        'Bounded symbolic model checking: for each of the 32 registered '
+        'generators and each n in 1..40 plus word-boundary sizes up to 160 '
+        '(thorough: 1..160 and every residue mod 64 near 192 and 1984), for '
+        'every non-zero seed and every value of the entropy bytes, the result '
+        'lies in [0, 2^n), no exception is raised, and a seeded call never '
+        'consults an entropy source; JavaRandom equals the '
+        'java.util.Random/BigInteger reference for every 64-bit seed; '
+        'TruncLcgRand equals the truncated-LCG stream for byte-multiple '
+        'output sizes.',
+        'os.urandom / shake / numpy / MT19937 return arbitrary bytes; xor/or/'
+        'and on unbounded ints uninterpreted with range axioms; x % 2^k '
+        '(k >= 16) abstracted in range jobs; retry loops bounded to one retry; '
+        'known findings F5, F7'),
 }
 
 NOT_APPLICABLE = {
